@@ -682,6 +682,138 @@ def run_union_argument_modules(items):
     return verdict, other
 
 
+# ---------------------------------------------------------------------------
+# round 5: callables whose signature comes from the DEF NODE (nested defs, lambdas) with bodies
+# that contain nested function kinds holding yield / yield from / await / return; return covariance
+# decided by CALLING them
+
+NESTED_PIECES = [
+    [],
+    ["def inner(): yield 1"],
+    ["def inner(): yield from ()"],
+    ["def inner(): return 1"],
+    ["async def inner(): yield 1"],
+    ["async def inner(): await helper()"],
+    ["async def inner(): return 1"],
+    ["async def inner():", "    async def deeper(): yield 1", "    return 1"],
+    ["def inner():", "    async def deeper(): yield 1", "    return 1"],
+    ["lam = lambda: (yield)"],
+    ["lam = lambda: 1"],
+    ["gen = (x for x in ())"],
+    ["lst = [x for x in ()]"],
+    ["class C:", "    def m(self): yield 1"],
+    ["class C:", "    async def m(self): yield 1"],
+    ["class C:", "    async def m(self): await helper()"],
+    ["async def inner(): return [await z for z in ()]"],
+    ["def inner(): return (yield)"],
+]
+OWN_PIECES = {"def": [[], ["yield 2"], ["yield from ()"]], "async def": [[], ["yield 2"], ["await helper()"]]}
+EXPECTED_RETURNS = [("int", "int"), ("str", "str"), ("object", "object"), ("Awaitable[object]", "awaitable")]
+
+
+def nested_body_cases():
+    cases = []
+    for kind in ("def", "async def"):
+        for own in OWN_PIECES[kind]:
+            for nested in NESTED_PIECES:
+                for ann in ("", " -> int"):
+                    if ann and own and own[0].startswith("yield"):
+                        continue  # `-> int` on a generator is a wrong annotation, not our subject
+                    body = nested + own + ["return 0"] if not (own and own[0].startswith("yield") and kind == "async def") else nested + own
+                    cases.append((f"{kind} outer(){ann}:", body))
+    for lam in ("lambda: 0", "lambda: (yield)", "lambda: [(lambda: (yield))]", "lambda: (lambda: (yield))()", "lambda: [x for x in ()]", "lambda: (x for x in ())"):
+        cases.append((f"outer = {lam}", None))
+    return cases
+
+
+def _nested_source(i, head, body, uses):
+    lines = [f"def make{i}():", "    async def helper(): return 0"]
+    if body is None:
+        lines.append("    " + head)
+    else:
+        lines.append("    " + head)
+        lines += ["        " + b for b in body]
+    at = {}
+    for k, u in enumerate(uses):
+        lines.append(f"    {u}(outer)")
+        at[len(lines) - 1] = k
+    lines.append("    return outer")
+    return lines, at
+
+
+def nested_body_stream():
+    """-> (failures, stats)"""
+    import contextlib
+    import inspect
+    import io
+
+    from pyanalyze.error_code import ErrorCode
+    from pyanalyze.test_name_check_visitor import TestNameCheckVisitorBase
+
+    cases = []
+    for head, body in nested_body_cases():
+        src = "\n".join(["def make():", "    async def helper(): return 0", "    " + head] + (["        " + b for b in body] if body is not None else []) + ["    return outer"])
+        try:
+            compile(src, "<n>", "exec")
+        except SyntaxError:
+            continue
+        cases.append((head, body))
+    failures = []
+    stats = {"callables": len(cases), "checked": 0, "accepted": 0, "rejected_though_member": 0, "other_codes": {}}
+    uses = [f"use{k}" for k in range(len(EXPECTED_RETURNS))]
+    for b0 in range(0, len(cases), 60):
+        chunk = cases[b0 : b0 + 60]
+        lines = ["from typing import Awaitable, Callable"]
+        for k, (ann, _) in enumerate(EXPECTED_RETURNS):
+            lines.append(f"def use{k}(cb: Callable[[], {ann}]): pass")
+        sites = {}
+        for i, (head, body) in enumerate(chunk):
+            L, at = _nested_source(i, head, body, uses)
+            for off, k in at.items():
+                sites[len(lines) + off + 1] = (i, k)
+            lines += L
+        code = "\n".join(lines) + "\n"
+        buf = io.StringIO()
+        try:
+            with contextlib.redirect_stderr(buf), contextlib.redirect_stdout(buf):
+                errs = TestNameCheckVisitorBase()._run_str(code, fail_after_first=False)
+        except Exception as ex:
+            failures.append({"callable": "module of nested-body callables", "expected": "-", "observed": "pyanalyze raised " + repr(ex)[:300], "problem": "a verdict per use"})
+            continue
+        rejected = set()
+        for e in errs:
+            if e["lineno"] in sites and e["code"] is ErrorCode.incompatible_argument:
+                rejected.add(e["lineno"])
+            else:
+                stats["other_codes"][e["code"].name] = stats["other_codes"].get(e["code"].name, 0) + 1
+        ns = {}
+        exec("\n".join(l for l in lines if not l.strip().startswith("use") or l.startswith("def use")), ns)
+        for line, (i, k) in sites.items():
+            head, body = chunk[i]
+            res = ns[f"make{i}"]()()
+            kind = EXPECTED_RETURNS[k][1]
+            member = {"int": isinstance(res, int), "str": isinstance(res, str), "object": True, "awaitable": inspect.isawaitable(res)}[kind]
+            what = type(res).__name__
+            if inspect.iscoroutine(res) or inspect.isgenerator(res):
+                res.close()
+            acc = line not in rejected
+            stats["checked"] += 1
+            stats["accepted"] += int(acc)
+            text = head + (" " + "; ".join(body) if body is not None else "")
+            # unannotated return = Any by design; the only wrapper pyanalyze derives for an unannotated def is
+            # Coroutine for an `async def` that is not a generator.  So membership is demanded for annotated
+            # callables and for unannotated coroutine functions (decided by what the call REALLY returns).
+            annotated = body is not None and "->" in head
+            any_by_design = not annotated and what != "coroutine"
+            if acc and not member and any_by_design:
+                stats["any_by_design"] = stats.get("any_by_design", 0) + 1
+            elif acc and not member:
+                failures.append({"callable": text, "expected": f"Callable[[], {EXPECTED_RETURNS[k][0]}]", "observed": "accepted", "problem": f"calling it returns a {what}, not a member of the expected return type"})
+            elif not acc and member:
+                stats["rejected_though_member"] += 1
+    return failures, stats
+
+
 def enc_pair(e, a):
     return "C" + B.enc_sig(e) + "|" + B.enc_sig(a)
 
@@ -1100,6 +1232,9 @@ def run(tier: str, replay: str | None = None):
                         un_corr.append({"input": payload, "module accepts": ok, "every member accepted individually": want})
 
     # ---- return covariance through every kind of callable (the oracle calls the accepted object)
+    nb_bad, nb_stats = nested_body_stream()
+    for b in nb_bad:
+        failing.append(({"callable": b["callable"], "expected_type": b["expected"], "text": f"nested callable `{b['callable']}` where {b['expected']} is expected"}, b["observed"], b["problem"]))
     rk_bad, rk_stats = return_kind_stream()
     for b in rk_bad:
         failing.append(({"callable": b["callable"], "expected_type": b["expected"], "text": f"{b['callable']} where {b['expected']} is expected"}, b["observed"], b["problem"]))
@@ -1136,7 +1271,7 @@ def run(tier: str, replay: str | None = None):
         rep.harness_error("specification PyBind.py_bind disagrees with CPython on " + json.dumps(sb))
 
     rep.coverage.update(
-        evaluations=len(pairs) + len(typed) + n_spec + n_ep + n_ov + n_pr + n_ca + n_ca_e2e + n_ov2 + n_hier + n_un + n_eun + n_un_mod,
+        evaluations=len(pairs) + len(typed) + n_spec + n_ep + n_ov + n_pr + n_ca + n_ca_e2e + n_ov2 + n_hier + n_un + n_eun + n_un_mod + nb_stats["checked"],
         distinct_nontrivial=len(distinct),
         rule="a case = (expected signature e, actual signature a): every def-expressible e with <=2 parameters x a sample (thorough: all) of the <=2-parameter signatures over names {a,b,c}; "
         "random e with <=5 parameters paired with an independent random a (1/4) or an edit of e (kind change, default flip, added optional/*args/**kwargs, dropped, renamed or swapped parameter); "
@@ -1171,6 +1306,10 @@ def run(tier: str, replay: str | None = None):
         union_argument_modules=n_un_mod,
         union_mismatches=len(un_corr),
         union_other_codes=un_other,
+        nested_body_callables=nb_stats["callables"],
+        nested_body_checks=nb_stats["checked"],
+        nested_body_accepted=nb_stats["accepted"],
+        nested_body_any_by_design=nb_stats.get("any_by_design", 0),
         return_kind_checks=rk_stats["checked"],
         return_kind_accepted=rk_stats["per_kind_accepted"],
         hierarchies_checked=n_hier,
